@@ -25,87 +25,72 @@ Definition codes_law : Prop := forall r, In r all_codes -> code_ok r = true.
 
 Definition C07_full : Prop := enc_law /\ dec_law /\ codes_law.
 
-(* The code falsifies it.  Witness: STRING2.decode(b"\x03\x00a\x00b\x00c\x00") raises DataError: the
-   prefix counts characters, the decoder reads that many BYTES ("a\0b", not UTF-16). *)
-Definition STRING2_ty : ty := TStr false 2 Utf16.
+(* The code falsifies it, on two input classes (after the codec repairs 44461bb..bcb4254 of /repo).
+   Witness: BYTE[1].encode([True]*16) emits two bytes for an array of one element: an array of bit
+   strings given more bits than its length is not truncated (every other element type is). *)
+Definition ty_named (s : string) : ty := match ty_of_name (zs_of_string s) with Some t => t | None => TBool end.
 Theorem C07_full_refuted : ~ C07_full.
 Proof.
-  intros (_ & Hd & _). specialize (Hd STRING2_ty [3; 0; 97; 0; 98; 0; 99; 0] eq_refl eq_refl).
-  vm_compute in Hd. discriminate Hd.
+  intros (He & _ & _).
+  specialize (He (TArrFixed 1 (TBits 1)) (VList (repeat (VBool true) 16)) [255] eq_refl eq_refl).
+  vm_compute in He. discriminate He.
 Qed.
 Print Assumptions C07_full_refuted.
 
 (* an empty output line, so that the axiom lists printed above are read as separate blocks *)
 Goal True. Proof. idtac "". exact I. Qed.
 
-(* One witness per deviation class (what the real implementation does on each: known_findings/C07.jsonl). *)
-Definition ty_named (s : string) : ty := match ty_of_name (zs_of_string s) with Some t => t | None => TBool end.
-Example dev_string2_is_gen_row : ty_named "STRING2" = STRING2_ty. Proof. reflexivity. Qed.
-
-(* encode side *)
-Example dev_bit_array_overlong :   (* BYTE[1].encode([True]*16): two bytes for an array of one *)
+(* The two remaining deviation classes, one witness each (known_findings/C07.jsonl). *)
+Example dev_bit_array_overlong :
   let v := VList (repeat (VBool true) 16) in
   spec_encode (TArrFixed 1 (ty_named "BYTE")) v = Some [255] /\ encode (TArrFixed 1 (ty_named "BYTE")) v = Ok [255; 255]
   /\ enc_dev (TArrFixed 1 (ty_named "BYTE")) v = 2.
 Proof. repeat split; reflexivity. Qed.
-Example dev_array_of_n_bytes :     (* Array(2, n_bytes(1)): issubclass() on an instance *)
-  let v := VList [VBytes [97]; VBytes [98]] in
-  spec_encode (TArrFixed 2 (TNBytes 1)) v = Some [97; 98] /\ encode (TArrFixed 2 (TNBytes 1)) v = Err DataError
-  /\ enc_dev (TArrFixed 2 (TNBytes 1)) v = 1
-  /\ spec_decode (TArrFixed 2 (TNBytes 1)) [97; 98] = SOk v [] /\ decode (TArrFixed 2 (TNBytes 1)) [97; 98] = Err DataError.
-Proof. repeat split; reflexivity. Qed.
-Example dev_stringn_non_ascii :    (* STRINGN.encode("é"): UTF-8, two bytes for a count of one character of size 1 *)
-  spec_encode TStringN (VStr [233]) = Some [1; 0; 1; 0; 233] /\ encode TStringN (VStr [233]) = Ok [1; 0; 1; 0; 195; 169]
-  /\ enc_dev TStringN (VStr [233]) = 3.
-Proof. repeat split; reflexivity. Qed.
-Example dev_date_and_time_uniform_call :   (* DATE_AND_TIME.encode((time, date)): TypeError; as a member: DataError *)
-  spec_encode TDateTime (VTuple [VInt 1; VInt 2]) = Some [1; 0; 0; 0; 2; 0]
-  /\ encode TDateTime (VTuple [VInt 1; VInt 2]) = Err (Foreign TypeError)
-  /\ encode_args TDateTime [VInt 1; VInt 2] = Ok [1; 0; 0; 0; 2; 0]
-  /\ encode (TArrFixed 1 TDateTime) (VList [VTuple [VInt 1; VInt 2]]) = Err DataError.
-Proof. repeat split; reflexivity. Qed.
-(* decode side *)
-Example dev_stringn_empty :        (* STRINGN.decode(STRINGN.encode("")): BufferEmptyError *)
-  spec_decode TStringN [1; 0; 0; 0] = SOk (VStr []) [] /\ decode TStringN [1; 0; 0; 0] = Err BufferEmpty.
-Proof. split; reflexivity. Qed.
-Example dev_unbounded_bit_array :  (* Array(None, BYTE).decode: a list of lists, not the flat bit list *)
-  spec_decode (TArrAll (TBits 1)) [1] = SOk (VList (VBool true :: repeat (VBool false) 7)) []
-  /\ decode (TArrAll (TBits 1)) [1] = Ok (VList [VList (VBool true :: repeat (VBool false) 7)], []).
-Proof. split; reflexivity. Qed.
-Example dev_structtag_member_order :   (* members listed out of offset order: the later one is read at the stream position *)
-  let t := TStructTag [((Some [98], 4%nat), TInt true 4); ((Some [97], 0%nat), TInt true 4)] [] [] 8 in
-  wire_ty t = true /\ dec_ty t = false
-  /\ spec_decode t [1; 0; 0; 0; 2; 0; 0; 0] = SOk (VDict [(Some [98], VInt 2); (Some [97], VInt 1)]) []
-  /\ decode t [1; 0; 0; 0; 2; 0; 0; 0] = Err BufferEmpty.
-Proof. repeat split; reflexivity. Qed.
-(* truncated buffers: the reference refuses, the library returns a short value *)
-Example dev_short_string :
-  spec_decode (ty_named "STRING") [5; 0; 97] = STrunc /\ decode (ty_named "STRING") [5; 0; 97] = Ok (VStr [97], []).
-Proof. split; reflexivity. Qed.
-Example dev_short_n_bytes : spec_decode (TNBytes 3) [1; 2] = STrunc /\ decode (TNBytes 3) [1; 2] = Ok (VBytes [1; 2], []).
-Proof. split; reflexivity. Qed.
-Example dev_short_fixed_string :
-  spec_decode (TFixedStr 4 false 4 4) [2; 0; 0; 0; 65; 66] = STrunc
-  /\ decode (TFixedStr 4 false 4 4) [2; 0; 0; 0; 65; 66] = Ok (VStr [65; 66], []).
-Proof. split; reflexivity. Qed.
-Example dev_short_structtag :
-  let t := TStructTag [((Some [120], 0%nat), TInt true 4)] [] [] 8 in
-  spec_decode t [1; 0; 0; 0] = STrunc /\ decode t [1; 0; 0; 0] = Ok (VDict [(Some [120], VInt 1)], []).
-Proof. split; reflexivity. Qed.
-Example dev_unbounded_array_mid_element :   (* 3 UINTs for an array of pairs: the half element is dropped silently *)
+(* 3 UINTs for an unbounded array of pairs: the half element is dropped silently (BufferEmptyError
+   raised by the second member ends the array) *)
+Example dev_unbounded_array_mid_element :
   let t := TArrAll (TStruct SPlain [(Some [97], TInt false 2); (Some [98], TInt false 2)]) in
   spec_decode t [1; 0; 2; 0; 3; 0] = STrunc
   /\ decode t [1; 0; 2; 0; 3; 0] = Ok (VList [VDict [(Some [97], VInt 1); (Some [98], VInt 2)]], []).
 Proof. split; reflexivity. Qed.
-(* the type-code table *)
-Example dev_date_and_time_size : existsb (fun r => is_date_and_time r && negb (code_ok r)) all_codes = true.
-Proof. exact type_codes_date_and_time. Qed.
 
-(* The guards: exactly the excluded input classes (Proofs/CodecWireDefs.v). *)
+(* Classes that deviated before the repairs and now follow the reference (regression witnesses). *)
+Example fixed_string2 :
+  ty_named "STRING2" = TStr false 2 Utf16
+  /\ decode (ty_named "STRING2") [3; 0; 97; 0; 98; 0; 99; 0] = Ok (VStr [97; 98; 99], [])
+  /\ spec_decode (ty_named "STRING2") [3; 0; 97; 0; 98; 0; 99; 0] = SOk (VStr [97; 98; 99]) [].
+Proof. repeat split; reflexivity. Qed.
+Example fixed_stringn :
+  decode TStringN [1; 0; 0; 0] = Ok (VStr [], []) /\ encode TStringN (VStr [233]) = Ok [1; 0; 1; 0; 233]
+  /\ decode TStringN [1; 0; 1; 0; 233] = Ok (VStr [233], [])
+  /\ spec_decode TStringN [2; 0; 2; 0; 61; 216; 0; 222] = SOk (VStr [128512]) []
+  /\ decode TStringN [2; 0; 2; 0; 61; 216; 0; 222] = Ok (VStr [128512], []).
+Proof. repeat split; reflexivity. Qed.
+Example fixed_date_and_time :
+  encode TDateTime (VTuple [VInt 1; VInt 2]) = Ok [1; 0; 0; 0; 2; 0]
+  /\ encode (TArrFixed 1 TDateTime) (VList [VTuple [VInt 1; VInt 2]]) = Ok [1; 0; 0; 0; 2; 0].
+Proof. split; reflexivity. Qed.
+Example fixed_array_of_n_bytes :
+  encode (TArrFixed 2 (TNBytes 1)) (VList [VBytes [97]; VBytes [98]]) = Ok [97; 98]
+  /\ decode (TArrFixed 2 (TNBytes 1)) [97; 98] = Ok (VList [VBytes [97]; VBytes [98]], []).
+Proof. split; reflexivity. Qed.
+Example fixed_unbounded_bit_array :
+  decode (TArrAll (TBits 1)) [1] = Ok (VList (VBool true :: repeat (VBool false) 7), []).
+Proof. reflexivity. Qed.
+Example fixed_structtag_member_order :
+  let t := TStructTag [((Some [98], 4%nat), TInt true 4); ((Some [97], 0%nat), TInt true 4)] [] [] 8 in
+  wire_ty t = true /\ decode t [1; 0; 0; 0; 2; 0; 0; 0] = Ok (VDict [(Some [98], VInt 2); (Some [97], VInt 1)], []).
+Proof. split; reflexivity. Qed.
+Example fixed_short_reads :
+  decode (ty_named "STRING") [5; 0; 97] = Err DataError /\ decode (TNBytes 3) [1; 2] = Err DataError
+  /\ decode (TFixedStr 4 false 4 4) [2; 0; 0; 0; 65; 66] = Err DataError
+  /\ decode (TStructTag [((Some [120], 0%nat), TInt true 4)] [] [] 8) [1; 0; 0; 0] = Err DataError.
+Proof. repeat split; reflexivity. Qed.
+
+(* The guards: exactly the excluded input classes. *)
 Definition C07_guard_enc (t : ty) (v : val) : bool := negb (enc_dev t v =? 0).
 Definition is_trunc (r : sres) : bool := match r with STrunc => true | _ => false end.
-Definition C07_guard_dec (t : ty) (bs : bytes) : bool := negb (dec_ty t) || is_trunc (spec_decode t bs).
-Definition C07_guard_code (r : code_row) : bool := is_date_and_time r.
+Definition C07_guard_dec (t : ty) (bs : bytes) : bool := is_trunc (spec_decode t bs).
 
 (* REAL: the model rounds / widens with integer arithmetic on the bit fields (Model/CodecFloat.v); the
    reference is Flocq's binary_normalize (Spec/WireFloat.v).  They agree on every bit pattern
@@ -125,19 +110,25 @@ Definition C07_guarded_stmt : Prop :=
         | SEnd => decode t bs = Err BufferEmpty
         | STrunc => False
         end)
-  /\ (forall r, In r all_codes -> C07_guard_code r = false -> code_ok r = true)
+  /\ codes_law
   /\ (forall a b bs, spec_encode TDateTime (VTuple [VInt a; VInt b]) = Some bs -> encode_args TDateTime [VInt a; VInt b] = Ok bs).
+
+(* the type-code table holds without exception *)
+Theorem type_codes : codes_law.
+Proof. intros r Hin. pose proof type_codes_all as H. rewrite forallb_forall in H. exact (H r Hin). Qed.
+Print Assumptions type_codes.
+
+(* an empty output line, so that the axiom lists printed above are read as separate blocks *)
+Goal True. Proof. idtac "". exact I. Qed.
 
 Theorem C07_guarded : C07_guarded_stmt.
 Proof.
   destruct C07_float_agreement as [Hr Hwd]. split; [|split; [|split]].
   - intros t v bs Hw Hg Hs. unfold C07_guard_enc in Hg. apply Bool.negb_false_iff in Hg. apply Z.eqb_eq in Hg.
     exact (encode_is_spec_gen Hr t v bs Hw Hs Hg).
-  - intros t bs Hw Hok Hg. unfold C07_guard_dec in Hg. apply Bool.orb_false_elim in Hg as [Hd Ht].
-    apply Bool.negb_false_iff in Hd. pose proof (decode_is_spec_gen Hwd t bs Hw Hd Hok) as H.
-    destruct (spec_decode t bs); try exact H. discriminate Ht.
-  - intros r Hin Hg. pose proof type_codes_guarded as H. rewrite forallb_forall in H. specialize (H r Hin).
-    unfold C07_guard_code in Hg. rewrite Hg in H. exact H.
+  - intros t bs Hw Hok Hg. unfold C07_guard_dec in Hg. pose proof (decode_is_spec_gen Hwd t bs Hw Hok) as H.
+    destruct (spec_decode t bs); try exact H. discriminate Hg.
+  - exact type_codes.
   - exact datetime_args_is_spec.
 Qed.
 Print Assumptions C07_guarded.
@@ -145,7 +136,7 @@ Print Assumptions C07_guarded.
 (* an empty output line, so that the axiom lists printed above are read as separate blocks *)
 Goal True. Proof. idtac "". exact I. Qed.
 
-(* The three laws, one by one (the names of DESIGN.md section 7). *)
+(* The laws one by one (the names of DESIGN.md section 7). *)
 Theorem encode_is_spec :
   forall t v bs, wire_ty t = true -> C07_guard_enc t v = false -> spec_encode t v = Some bs -> encode t v = Ok bs.
 Proof. exact (proj1 C07_guarded). Qed.
@@ -168,16 +159,6 @@ Print Assumptions decode_is_spec.
 (* an empty output line, so that the axiom lists printed above are read as separate blocks *)
 Goal True. Proof. idtac "". exact I. Qed.
 
-Theorem type_codes : forall r, In r all_codes -> C07_guard_code r = false -> code_ok r = true.
-Proof.
-  intros r Hin Hg. pose proof type_codes_guarded as H. rewrite forallb_forall in H. specialize (H r Hin).
-  unfold C07_guard_code in Hg. rewrite Hg in H. exact H.
-Qed.
-Print Assumptions type_codes.
-
-(* an empty output line, so that the axiom lists printed above are read as separate blocks *)
-Goal True. Proof. idtac "". exact I. Qed.
-
 (* StructTag layout, spelled out: [size] bytes; byte j = the visible member covering j (0 in the
    padding) with the BOOL members of that byte set / cleared *)
 Theorem C07_structtag_layout :
@@ -193,17 +174,20 @@ Print Assumptions C07_structtag_layout.
 (* an empty output line, so that the axiom lists printed above are read as separate blocks *)
 Goal True. Proof. idtac "". exact I. Qed.
 
-(* non-vacuity: a structure of the kinds the property names (integers, REAL, strings, a fixed-capacity
-   string, a bit string, an array) and a template with padding, a hidden host and bit members, one of
-   them over a visible member *)
+(* non-vacuity: a structure of the kinds the property names (integers, REAL, strings incl. 2-byte
+   characters, a fixed-capacity string, a bit string, arrays) and a template with padding, a hidden
+   host and bit members, one of them over a visible member *)
 Definition ex_ty : ty :=
   TStruct SPlain [(Some [110], ty_named "UINT"); (None, ty_named "SINT"); (Some [115], TArrFixed 2 (ty_named "STRING"));
-                  (Some [102], TFixedStr 4 false 4 3); (Some [119], ty_named "WORD"); (Some [114], ty_named "LREAL")].
+                  (Some [102], TFixedStr 4 false 4 3); (Some [119], ty_named "WORD"); (Some [114], ty_named "LREAL");
+                  (Some [117], ty_named "STRING2"); (Some [100], TDateTime)].
 Definition ex_val : val :=
   VList [VInt 513; VInt (-1); VList [VStr [97; 98]; VStr []]; VStr [120; 121; 122; 119];
-         VList (VBool true :: repeat (VBool false) 14 ++ [VBool true]); VFloat 0x3ff8000000000000].
+         VList (VBool true :: repeat (VBool false) 14 ++ [VBool true]); VFloat 0x3ff8000000000000;
+         VStr [233; 8364]; VTuple [VInt 1; VInt 2]].
 Definition ex_bytes : bytes :=
-  [1; 2; 255; 2; 0; 97; 98; 0; 0; 3; 0; 0; 0; 120; 121; 122; 0; 1; 128; 0; 0; 0; 0; 0; 0; 248; 63].
+  [1; 2; 255; 2; 0; 97; 98; 0; 0; 3; 0; 0; 0; 120; 121; 122; 0; 1; 128; 0; 0; 0; 0; 0; 0; 248; 63;
+   2; 0; 233; 0; 172; 32; 1; 0; 0; 0; 2; 0].
 Definition ex_tag : ty :=
   TStructTag [((Some [97], 0%nat), TInt true 2); ((Some [90; 104], 4%nat), TInt true 1); ((Some [100], 8%nat), TInt true 4)]
              [([98; 48], (4%nat, 0%nat)); ([98; 55], (4%nat, 7%nat)); ([108; 111], (0%nat, 0%nat))] [[90; 104]] 12.
@@ -211,11 +195,11 @@ Definition ex_tag_val : val :=
   VDict [(Some [97], VInt 0x0102); (Some [100], VInt (-2)); (Some [98; 48], VBool true); (Some [98; 55], VBool true);
          (Some [108; 111], VBool true)].
 Example C07_nonvacuous :
-  wire_ty ex_ty = true /\ dec_ty ex_ty = true /\ C07_guard_enc ex_ty ex_val = false
+  wire_ty ex_ty = true /\ C07_guard_enc ex_ty ex_val = false
   /\ spec_encode ex_ty ex_val = Some ex_bytes /\ encode ex_ty ex_val = Ok ex_bytes
   /\ C07_guard_dec ex_ty (ex_bytes ++ [7]) = false
   /\ (exists v, spec_decode ex_ty (ex_bytes ++ [7]) = SOk v [7] /\ decode ex_ty (ex_bytes ++ [7]) = Ok (v, [7]))
-  /\ wire_ty ex_tag = true /\ dec_ty ex_tag = true /\ C07_guard_enc ex_tag ex_tag_val = false
+  /\ wire_ty ex_tag = true /\ C07_guard_enc ex_tag ex_tag_val = false
   /\ spec_encode ex_tag ex_tag_val = Some [3; 1; 0; 0; 129; 0; 0; 0; 254; 255; 255; 255]
   /\ encode ex_tag ex_tag_val = Ok [3; 1; 0; 0; 129; 0; 0; 0; 254; 255; 255; 255]
   /\ decode ex_tag [3; 1; 0; 0; 129; 0; 0; 0; 254; 255; 255; 255; 9]
